@@ -223,6 +223,54 @@ fn structural(base: &Base, others: &[&Base]) -> Vec<(String, Vec<u8>)> {
         }
         out.push(("flip-flavour#resized".into(), m.write()));
     }
+    // multi-byte perturbations that keep simple checksums (xor, sum) of a field unchanged
+    {
+        let fields: Vec<(&str, Box<dyn Fn(&mut WXenc) -> &mut Vec<u8>>)> = vec![
+            ("tag", Box::new(|m: &mut WXenc| &mut m.tag)),
+            ("masked-seed", Box::new(|m: &mut WXenc| &mut m.encs[0].1)),
+        ];
+        for (fname, get) in fields {
+            let mut m = w.clone();
+            get(&mut m).swap(0, 1);
+            out.push((format!("swap-two-bytes-of-{fname}#0-1"), m.write()));
+            let mut m = w.clone();
+            {
+                let f = get(&mut m);
+                let l = f.len();
+                f.swap(2, l - 1);
+            }
+            out.push((format!("swap-two-bytes-of-{fname}#2-last"), m.write()));
+            let mut m = w.clone();
+            get(&mut m).reverse();
+            out.push((format!("reverse-{fname}#all"), m.write()));
+            let mut m = w.clone();
+            get(&mut m).rotate_left(1);
+            out.push((format!("rotate-{fname}#1"), m.write()));
+            let mut m = w.clone();
+            {
+                let f = get(&mut m);
+                f[3] ^= 0x10;
+                f[9] ^= 0x10;
+            }
+            out.push((format!("flip-same-bit-in-two-bytes-of-{fname}#3-9"), m.write()));
+            let mut m = w.clone();
+            {
+                let f = get(&mut m);
+                f[4] = f[4].wrapping_add(1);
+                f[5] = f[5].wrapping_sub(1);
+            }
+            out.push((format!("plus-one-minus-one-in-{fname}#4-5"), m.write()));
+        }
+        if w.hybrid {
+            let mut m = w.clone();
+            m.encs[0].0.swap(10, 11);
+            out.push(("swap-two-bytes-of-mlkem-ciphertext#10-11".into(), m.write()));
+            let mut m = w.clone();
+            m.encs[0].0[20] ^= 0x01;
+            m.encs[0].0[700] ^= 0x01;
+            out.push(("flip-same-bit-in-two-bytes-of-mlkem-ciphertext#20-700".into(), m.write()));
+        }
+    }
     // splices with other encapsulations (same and different policies)
     for o in others {
         let ow = &o.w;
